@@ -17,7 +17,7 @@ import os
 import sys
 import tempfile
 
-from common import (Hang, Reporter, conclude, guarded, proof_cov, rng_for, supported)
+from common import (WORK, Hang, Reporter, conclude, guarded, proof_cov, rng_for, supported)
 import configs
 import docs
 import pipecheck
@@ -83,7 +83,8 @@ def ws_doc(r):
 
 def cli_case(data: bytes):
     from markdown_it.cli import parse as cli
-    with tempfile.NamedTemporaryFile(delete=False, dir="/verif/work", suffix=".md") as f:
+    WORK.mkdir(parents=True, exist_ok=True)
+    with tempfile.NamedTemporaryFile(delete=False, dir=str(WORK), suffix=".md") as f:
         f.write(data)
         name = f.name
     old = sys.stdout
@@ -107,7 +108,6 @@ def run(ctx) -> int:
     tier, seed, proofs = ctx["tier"], ctx["seed"], ctx["proofs"]
     rng = rng_for("C01", seed)
     q = tier == "quick"
-    os.makedirs("/verif/work", exist_ok=True)
 
     # correspondence: model vs implementation incl. exception class and termination
     cases = []
